@@ -274,4 +274,49 @@ func C12(r *h.Run) {
 			}
 		}
 	}
+	// one *Request value sent through several clients in turn (a retry against another
+	// backend; a relay handler passing on the request it received): each client's interceptors
+	// see that client's procedure, and a client's Spec
+	for _, proto := range []string{"connect", "grpc", "grpcweb"} {
+		var copts []connect.ClientOption
+		switch proto {
+		case "grpc":
+			copts = append(copts, connect.WithGRPC())
+		case "grpcweb":
+			copts = append(copts, connect.WithGRPCWeb())
+		}
+		stop := roundTripFunc(func(*http.Request) (*http.Response, error) { return nil, fmt.Errorf("stop") })
+		req := connect.NewRequest(&wb{})
+		for k, svc := range []string{"verif.v1.First", "verif.v1.Second", "verif.v1.First"} {
+			var n int
+			var specs []connect.Spec
+			url := "http://h/" + svc + "/Do"
+			cl := connect.NewClient[wb, wb](stop, url, append(copts, connect.WithInterceptors(countIcpt{&n, &specs}))...)
+			_, _ = cl.CallUnary(context.Background(), req)
+			r.Eval("client_spec_reuse", fmt.Sprint(proto, k))
+			want := "/" + svc + "/Do"
+			in := map[string]any{"proto": proto, "url": url, "the_same_request_value_was_sent_before_through_n_other_clients": k}
+			if len(specs) != 1 || specs[0].Procedure != want || !specs[0].IsClient || specs[0].StreamType != connect.StreamTypeUnary || req.Spec().Procedure != want {
+				r.Fail(h.Failure{Key: "dispatch/client-spec", Family: "client_spec_reuse", What: "a Request value that went through another client before: this client's interceptors see a Spec that is not this client's", Input: in, Expected: want, Actual: fmt.Sprint(specs, " request.Spec()=", req.Spec())})
+			}
+		}
+		// the request a handler received, forwarded to an upstream client
+		var upstreamSpecs []connect.Spec
+		var un int
+		upstream := connect.NewClient[wb, wb](stop, "http://h/verif.v1.Upstream/Do", append(copts, connect.WithInterceptors(countIcpt{&un, &upstreamSpecs}))...)
+		front := connect.NewUnaryHandler("/verif.v1.Front/Do", func(ctx context.Context, in *connect.Request[wb]) (*connect.Response[wb], error) {
+			_, _ = upstream.CallUnary(ctx, in)
+			return connect.NewResponse(&wb{}), nil
+		})
+		hreq := httptest.NewRequest(http.MethodPost, "/verif.v1.Front/Do", strings.NewReader(""))
+		hreq.Header.Set("Content-Type", "application/proto")
+		if p := safely(func() { front.ServeHTTP(httptest.NewRecorder(), hreq) }); p != nil {
+			r.Fail(h.Failure{Key: "dispatch/panic", Family: "client_spec_reuse", What: fmt.Sprint("panic: ", p), Input: proto})
+			continue
+		}
+		r.Eval("client_spec_reuse", fmt.Sprint(proto, "relay"))
+		if len(upstreamSpecs) != 1 || upstreamSpecs[0].Procedure != "/verif.v1.Upstream/Do" || !upstreamSpecs[0].IsClient {
+			r.Fail(h.Failure{Key: "dispatch/client-spec", Family: "client_spec_reuse", What: "a relay handler passed the request it received to an upstream client: that client's interceptors do not see the upstream procedure with IsClient set", Input: map[string]any{"proto": proto, "front": "/verif.v1.Front/Do", "upstream": "/verif.v1.Upstream/Do"}, Actual: fmt.Sprint(upstreamSpecs)})
+		}
+	}
 }
